@@ -377,9 +377,64 @@ class TrampHarness(VtsHarness):
         if isinstance(t1, Obj):
             self.rec(ctx, uid + "/a-new-trampoline-is-idle-and-empty", t1.fields.get("_idle") is True)
 
+    def singleton_obligations(self):
+        """CurrentThreadScheduler.singleton() - the library's default scheduler - keeps its trampoline in a threading.local.
+        Contract of threading.local (assumed): an attribute assigned in the subclass's __init__ exists once PER THREAD (__init__
+        runs again for every thread that touches the object); an attribute of the CLASS is one object shared by all threads.
+        Obligations (on the AST of the real module): the singleton's get_trampoline returns <holder>.tramp; the holder is an
+        instance of a subclass of threading.local; `tramp` is assigned a NEW Trampoline() in that subclass's __init__ and is not a
+        class-level attribute."""
+        import ast
+        from .refine import Result
+        uid = f"{CFILE}::CurrentThreadSchedulerSingleton.get_trampoline"
+        tree = ast.parse(self.loader.load_file(CFILE).src)
+        classes = {n.name: n for n in tree.body if isinstance(n, ast.ClassDef)}
+        out = []
+
+        def rec(name, ok, detail=""):
+            out.append(Result(f"{uid}/{name}", "proved" if ok else "refuted", "ast-contract", {}, [], detail, 0.0, "post"))
+        single = classes.get("CurrentThreadSchedulerSingleton")
+        holder_cls, holder_attr, attr = None, None, None
+        if single is not None:
+            for n in single.body:
+                if isinstance(n, ast.FunctionDef) and n.name == "get_trampoline":
+                    rets = [x for x in ast.walk(n) if isinstance(x, ast.Return)]
+                    if len(rets) == 1 and isinstance(rets[0].value, ast.Attribute) and isinstance(rets[0].value.value, ast.Attribute):
+                        attr, holder_attr = rets[0].value.attr, rets[0].value.value.attr
+            for n in single.body:
+                if isinstance(n, (ast.Assign, ast.AnnAssign)) and holder_attr is not None:
+                    tg = n.targets[0] if isinstance(n, ast.Assign) else n.target
+                    if isinstance(tg, ast.Name) and tg.id == holder_attr and isinstance(n.value, ast.Call) and isinstance(n.value.func, ast.Name):
+                        holder_cls = classes.get(n.value.func.id)
+        rec("returns-the-trampoline-kept-in-the-singleton's-holder-object", holder_cls is not None and attr is not None,
+            "get_trampoline must return <Singleton>.<holder>.<attr> with <holder> = <HolderClass>() a class attribute")
+        if holder_cls is None:
+            return out
+        bases = [b.id if isinstance(b, ast.Name) else getattr(b, "attr", "") for b in holder_cls.bases]
+        rec("the-holder-is-a-threading.local", "local" in bases, f"bases of {holder_cls.name}: {bases}")
+        class_level = []
+        for n in holder_cls.body:
+            if isinstance(n, ast.Assign):
+                class_level += [t.id for t in n.targets if isinstance(t, ast.Name)]
+            elif isinstance(n, ast.AnnAssign) and n.value is not None and isinstance(n.target, ast.Name):
+                class_level.append(n.target.id)
+        rec("the-trampoline-is-not-a-class-attribute-shared-by-all-threads", attr not in class_level,
+            f"class-level attributes of {holder_cls.name}: {class_level} - a class attribute of a threading.local subclass is ONE object for all threads")
+        init = next((n for n in holder_cls.body if isinstance(n, ast.FunctionDef) and n.name == "__init__"), None)
+        per_thread = False
+        if init is not None:
+            for n in ast.walk(init):
+                if (isinstance(n, ast.Assign) and len(n.targets) == 1 and isinstance(n.targets[0], ast.Attribute) and n.targets[0].attr == attr
+                        and isinstance(n.targets[0].value, ast.Name) and n.targets[0].value.id == "self"
+                        and isinstance(n.value, ast.Call) and isinstance(n.value.func, ast.Name) and n.value.func.id == "Trampoline" and not n.value.args):
+                    per_thread = True
+        rec("every-thread-gets-a-new-trampoline (assigned in the holder's __init__)", per_thread)
+        return out
+
     def run(self):
         t0 = time.time()
         try:
+            self.results.extend(self.singleton_obligations())
             for f, c in ((TFILE, "Trampoline"), (SFILE, "TrampolineScheduler"), (CFILE, "CurrentThreadScheduler")):
                 node = self.loader.find(f, c)
                 for q, n in all_functions(node, c):
